@@ -42,6 +42,7 @@ ALPHABET = [
     {"op": "write", "rows": [["a", "x"], ["a", "y"], ["b", "q"], ["c", "x"]], "close": False},
     {"op": "write", "rows": [["b", "x"], ["c", "y"], ["d", "x"]], "close": True},
     {"op": "validate", "limit": 0, "table": CLEAN},
+    {"op": "write", "rows": [], "close": True},      # an empty export: the end check sees no rows at all
 ]
 # an earlier run left unfinished and finalized in the middle of this one (after j outputs)
 LATE = [
